@@ -23,6 +23,8 @@ for i in ids:
         text = text + " " + R5[i]
     if i in globals().get('R6', {}):
         text = text + " " + R6[i]
+    if i in globals().get('R7', {}):
+        text = text + " " + R7[i]
     checks.append({
         "property_id": i,
         "quick_cmd": f"bin/vcheck -property {i} -tier quick",
